@@ -141,6 +141,8 @@ package concurrency
 //@   at before call Unlock#1 ghost snap = r.runners
 //@   at before call Unlock#1 ghost snapped = true
 //@   at call WithCancel#0 ghost dctx = res0
+// audit round 3: the runners' context is derived from the caller's context
+//@   at before call WithCancel#0 assert [C12.run.ctx.parent] arg0 == old(ctx)
 //@   at before go#0 assert [C12.run.spawn.won] won && snapped && ncancel == 0 && nolocks()
 //@   at before go#0 assert [C12.run.spawn.each] 0 <= spawned && spawned < len(snap) && runners == snap && arg0 == runners[spawned]
 //@   at before go#0 assert [C12.run.spawn.ctx] ctx == dctx && errCh != nil && cap(errCh) == 0
@@ -198,6 +200,12 @@ package concurrency
 //@   ensures [C12.close.blocksrun] c.running.v != 0 && c.closed.v != 0
 //@   ensures [C12.close.waits] chdone[c.stopped]
 //@   ensures [C12.close.result] result == c.retErr
+// audit round 3: the joined error is read only AFTER the wait for `stopped` (Run stores retErr before it closes `stopped`): a
+// Close that reads it earlier returns nil for a shutdown that is still in progress
+//@   ghost waitedc bool
+//@   at entry ghost waitedc = false
+//@   at every call WaitUntilShutdown ghost waitedc = true
+//@   at every load retErr assert [C12.close.reads.afterwait] waitedc
 
 //@ func (*RunnerCloserManager).Run$1
 //@   tags C12
@@ -324,6 +332,8 @@ package concurrency
 //@   at every call Lock ghost decided = false
 //@   at every call Load ghost decided = heldw(c.mngr.lock)
 //@   at every call Load ghost closingseen = res0
+// audit round 3: the flag that decides is `closing` (not another atomic): what the decisive Load saw is closing's value
+//@   ensures [C12.addcloser.observed] closingseen <==> c.closing.v != 0
 //@   at every store closers assert [C12.addcloser.locked] heldw(c.mngr.lock) && decided && !closingseen && nlock == 1
 //@   at every load closers assert [C12.addcloser.reads.locked] heldw(c.mngr.lock)
 //@   ensures [C12.addcloser.rejects] closingseen ==> (result == ErrManagerAlreadyClosed && c.closers == old(c.closers))
@@ -426,3 +436,13 @@ package concurrency
 //@   ensures [C12.cnew.nograce] gracePeriod == nil ==> (nreg == 0 && len(result.closers) == 0 && result.fatalShutdownFn == nil)
 //@   ensures [C12.cnew.grace] gracePeriod != nil ==> (nreg == 1 && len(result.closers) == 1 && result.closers[0] != nil && result.fatalShutdownFn != nil && isfunc(result.fatalShutdownFn, "NewRunnerCloserManager$1"))
 //@   ensures nolocks()
+
+// audit round 3: the fatal-shutdown action ("fires iff the closers outlast the grace period"): the registered action is the
+// logger's Fatal (which ends the process), called exactly once - not a weaker log call
+//@ func NewRunnerCloserManager$1
+//@   tags C12
+//@   requires log != nil
+//@   ghost nfatal int
+//@   at entry ghost nfatal = 0
+//@   at every call Fatal ghost nfatal = nfatal + 1
+//@   ensures [C12.fatal.action] nfatal == 1
